@@ -115,8 +115,16 @@ func init() {
 			v, ok := decOf(s)
 			base, _ := a[1].(int)
 			bits, _ := a[2].(int)
-			if !ok || (base != 10 && base != 0) || (bits != 64 && bits != 0) {
+			if !ok || (base != 10 && base != 0) {
 				unsupported("strconv.ParseInt of a string that embeds a symbolic decimal")
+			}
+			if bits != 64 && bits != 0 {
+				// narrower results: only when the value provably fits (otherwise ParseInt reports a range error)
+				iv := fr.i.X.intervals().Of(v.t)
+				lim := float64(int64(1) << uint(bits-1))
+				if bits < 1 || bits > 63 || !iv.OK || iv.Lo < -lim || iv.Hi > lim-1 {
+					unsupported("strconv.ParseInt(_, 10, %d) of a symbolic decimal that may be out of range", bits)
+				}
 			}
 			return tuple{v, iface{}}
 		}
